@@ -523,6 +523,13 @@ func c06Gen(rng *rand.Rand) *metaCase {
 		}
 		feats["exclude-file-in-two-contexts"] = true
 	}
+	// entries that end in one key once another key has been cut off: every entry is rewritten at most once
+	if core.Chance(rng, 1, 5) {
+		p.Files.Include["chained"] = "ab~@\ncd\nef~\ngh@~\nij@@\n"
+		p.Files.Exclude["chainedx"] = "notlisted\n"
+		main = append(main, core.Pick(rng, "##!> include chained -- @ \"\" ~ x", "##!> include-except chained chainedx -- @ \"\" ~ \"\"", "##!> include chained -- ~ \"\" @ Y"))
+		feats["ending-behind-a-removed-ending"] = true
+	}
 	// entries whose characters in front of the ending also occur in the key: exactly one ending is replaced
 	if core.Chance(rng, 1, 5) {
 		p.Files.Include["endings"] = "glasses\necho@@\naaa\nbanana\nmiss\n"
